@@ -494,6 +494,12 @@ def bi_int(ctx, args, kw):
                     return mk(ops.trunc_div_witness(ctx, ia, ib), "int")
             return mk(ops.py_trunc(t), "int")
         if v.k == "str":
+            src = _formatted_number(ctx, v)
+            if src is not None and src.k in ("int", "bool"):
+                ctx.assumed.add("int(str(i)) == i for integers i (exact in CPython)")
+                return mk(term(src, "int"), "int")
+            if src is not None and src.k == "real":
+                ctx.raise_exc("ValueError", ("invalid literal for int() with base 10: text of a float",))
             raise U()("int() of a symbolic string")
     if isinstance(v, Ref):
         c = ctx.cell(v)
@@ -512,6 +518,17 @@ def bi_int(ctx, args, kw):
         ctx.raise_exc("TypeError", (str(e),))
     except OverflowError as e:
         ctx.raise_exc("OverflowError", (str(e),))
+
+
+def _formatted_number(ctx, v):
+    """the number x when the symbolic string v is str(x) (format without a spec), else None"""
+    src = ctx.ghost.get("fmt_terms", {}).get(v.t.get_id())
+    if src is None:
+        return None
+    t = v.t
+    if src.k == "real" and not (z3.is_app(t) and t.decl().name() == "fmt_real_"):
+        return None   # formatted with a spec: not the repr
+    return src
 
 
 def _int_of_real(t):
@@ -534,6 +551,10 @@ def bi_float(ctx, args, kw):
     if isinstance(v, Sym):
         if v.k in ("int", "bool", "real"):
             return mk(term(v, "real"), "real")
+        src = _formatted_number(ctx, v)
+        if src is not None:
+            ctx.assumed.add("float(str(x)) == x for floats and integers x (repr round-trips in CPython 3)")
+            return mk(term(src, "real"), "real")
         raise U()("float() of a symbolic string")
     if isinstance(v, Ref):
         c = ctx.cell(v)
@@ -892,6 +913,14 @@ def get_attr(ctx, o, name, default=NotImplemented):
     if isinstance(o, FuncVal):
         if name == "__name__":
             return o.node.name
+        return missing()
+    if isinstance(o, BoundMethod):
+        if name == "__name__":
+            return get_attr(ctx, o.func, "__name__", default) if not isinstance(o.func, FuncVal) else o.func.node.name
+        if name == "__self__":
+            return o.self_v
+        if name == "__func__":
+            return o.func
         return missing()
     if isinstance(o, Sym):
         if o.k == "str" and name in STR_METHODS:
@@ -1648,3 +1677,22 @@ def m_deepcopy(ctx, args, kw):
     v = args[0]
     ctx.assumed.add("copy.deepcopy: structural copy sharing no mutable object with the original")
     return ctx.world.verifier.snapshot(ctx, v) if hasattr(ctx.world, "verifier") else NotImplemented
+
+
+import inspect as _inspect_mod
+import types as _types_mod
+
+_FRAMEINFO = _types_mod.SimpleNamespace(filename="<verified-call>", lineno=0, function="<contract>", code_context=None, index=None)
+
+
+@model(_inspect_mod.stack)
+def m_inspect_stack(ctx, args, kw):
+    """the interpreter has no CPython frames: callers are reported as one fixed pseudo-frame (only used by the
+    repository to label where a DIP source was added from)"""
+    ctx.assumed.add("inspect.stack()/getframeinfo(): the caller is reported as file '<verified-call>', line 0")
+    return ctx.alloc(HList(items=[(None,), (None,), (None,), (None,)]))
+
+
+@model(_inspect_mod.getframeinfo)
+def m_inspect_getframeinfo(ctx, args, kw):
+    return Ext(_FRAMEINFO)
